@@ -22,6 +22,10 @@ static unsigned char *arenaA, *arenaB;
 static struct crypt_data *A, *B;
 static void *C;
 static int Csize;
+/* crypt_ra handle D starts as an undersized caller block (100 bytes, recorded 100): its pointer class, recorded size and
+   contents are state too; the block itself is re-created on restore because realloc moves it */
+static void *Dblk;
+static int Dreal, Dsize;
 static size_t state_bytes;
 
 struct snap { unsigned char *bytes; int err; };
@@ -40,6 +44,12 @@ capture (unsigned char *dst)
   memcpy (dst + o, B, OBJSZ);
   o += OBJSZ;
   memcpy (dst + o, C, OBJSZ);
+  o += OBJSZ;
+  memset (dst + o, 0, 8 + OBJSZ);
+  memcpy (dst + o, &Dreal, 4);
+  memcpy (dst + o + 4, &Dsize, 4);
+  if (Dblk)
+    memcpy (dst + o + 8, Dblk, (size_t) Dreal < OBJSZ ? (size_t) Dreal : OBJSZ);
 }
 
 static void
@@ -57,11 +67,26 @@ restore (const unsigned char *src, int err)
   o += OBJSZ;
   memcpy (C, src + o, OBJSZ);
   Csize = OBJSZ;
+  o += OBJSZ;
+  /* D's block always comes from the armed allocator seam: it ends at a guard page (an overflow through a lying recorded size
+     faults inside the call) and realloc/free can follow it through the ledger */
+  vh_seam_armed = 1;
+  if (Dblk)
+    free (Dblk);
+  vh_seam_armed = 0;
+  vh_ledger_reset ();
+  memcpy (&Dreal, src + o, 4);
+  memcpy (&Dsize, src + o + 4, 4);
+  vh_seam_armed = 1;
+  Dblk = Dreal ? malloc ((size_t) Dreal) : 0;
+  vh_seam_armed = 0;
+  if (Dblk)
+    memcpy (Dblk, src + o + 8, (size_t) Dreal < OBJSZ ? (size_t) Dreal : OBJSZ);
   errno = err;
 }
 
 /* ---- operations --------------------------------------------------------------- */
-enum { K_R, K_RN, K_RA, K_STATIC, K_GENSALT, K_GENSALT_CRYPT, K_GENSALT_RN, K_SETKEY, K_ENCRYPT, K_CHECKSALT, K_XCRYPT };
+enum { K_R, K_RN, K_RA, K_STATIC, K_GENSALT, K_GENSALT_CRYPT, K_GENSALT_RN, K_SETKEY, K_ENCRYPT, K_CHECKSALT, K_XCRYPT, K_RA_D, K_RA_D_ALLOCFAIL };
 struct op { int kind, obj, phrase, setting; char name[96]; char solo[CRYPT_OUTPUT_SIZE]; int solo_null; int solo_errclass; int request; int core; };
 static struct op ops[400];
 static int nops;
@@ -108,6 +133,22 @@ exec_op (const struct op *o, char *res, int *isnull, int *ec)
     case K_RA: r = crypt_ra (P, S, &C, &Csize); break;
     case K_STATIC: r = crypt (P, S); break;
     case K_XCRYPT: r = o->obj ? p_fcrypt (P, S) : p_xcrypt (P, S); break;
+    case K_RA_D:
+    case K_RA_D_ALLOCFAIL:
+      {
+        /* the handle's block is tracked through the allocator seam so that realloc's result can be followed */
+        vh_req_count = 0;
+        vh_fail_at[0] = o->kind == K_RA_D_ALLOCFAIL ? 1 : 0;
+        vh_seam_armed = 1;
+        r = crypt_ra (P, S, &Dblk, &Dsize);
+        last_errno = errno;
+        vh_seam_armed = 0;
+        vh_fail_at[0] = 0;
+        struct vh_blk *b = Dblk ? vh_ledger_find (Dblk) : 0;
+        Dreal = b ? (int) b->n : 0;
+        errno = last_errno;
+        break;
+      }
     case K_GENSALT: r = crypt_gensalt (S, 0, (const char *) rb, 16 + 16 * o->obj); break;
     case K_GENSALT_RN: r = crypt_gensalt_rn (S, 0, (const char *) rb, 16 + 16 * o->obj, out, sizeof out); break;
     case K_GENSALT_CRYPT:
@@ -163,7 +204,7 @@ addop (int kind, int obj, int phrase, int setting, int request, const char *fmt,
      entry point, the failing requests, the generators, setkey/encrypt */
   int cheap_setting = setting >= 0 && setting < 4;
   o->core = ((kind <= K_STATIC) && phrase == 0 && (cheap_setting || setting >= nvalid)) || (kind <= K_STATIC && phrase >= 2)
-    || (kind == K_GENSALT && obj == 0 && (request == 1000 || request == 1003)) || kind == K_GENSALT_CRYPT || kind == K_SETKEY || kind == K_ENCRYPT;
+    || (kind == K_GENSALT && obj == 0 && (request == 1000 || request == 1003)) || kind == K_GENSALT_CRYPT || kind == K_SETKEY || kind == K_ENCRYPT || kind == K_RA_D || kind == K_RA_D_ALLOCFAIL;
   if (kind == K_R && setting < nvalid && setting != 3)
     o->core = 0;                /* crypt_r is kept in the sub-alphabet for one method and the failures only */
 }
@@ -218,6 +259,9 @@ mkops (void)
     addop (K_RA, 0, 3, sb, req, "crypt_ra(C,200 bytes,ab............)");
     addop (K_STATIC, 0, 3, sb, req++, "crypt(200 bytes,ab............)");
   }
+  /* a crypt_ra handle that starts undersized, with and without the allocator failing: a failed call must not change what the next one returns */
+  addop (K_RA_D, 0, 0, 2, 2 * 2, "crypt_ra(D,P0,%s)", settings[2]);
+  addop (K_RA_D_ALLOCFAIL, 0, 0, 2, 9000, "crypt_ra(D,P0,%s) while the allocator fails", settings[2]);
   /* compat names */
   addop (K_XCRYPT, 0, 0, 2, 2 * 2, "xcrypt(P0,%s)", settings[2]);
   addop (K_XCRYPT, 1, 0, 1, 1 * 2, "fcrypt(P0,%s)", settings[1]);
@@ -242,7 +286,7 @@ mkops (void)
 }
 
 /* ---- search --------------------------------------------------------------------- */
-struct node { uint64_t h; int parent; short op; short depth; unsigned char *snap; size_t snaplen; int err; };
+struct node { uint64_t h; int parent; short op; short depth; unsigned char *snap; size_t snaplen; int err; int dsize_before; };
 /* snapshots are stored as runs that differ from the pristine state: (offset u32, length u32, bytes)* */
 static unsigned char *pristine;
 static size_t
@@ -382,6 +426,12 @@ check_op (int n, int oi)
       exec_op (o, res, &isnull, &ec);
       VH_END ();
     }
+  if (k)
+    {
+      /* the call was abandoned half-way: put the seams back */
+      vh_seam_armed = 0;
+      vh_fail_at[0] = 0;
+    }
   vh_stat ("evaluations", 1);
   vh_stat ("transitions", 1);
   const char *why = 0;
@@ -398,6 +448,27 @@ check_op (int n, int oi)
     }
   else if (o->kind == K_SETKEY)
     why = 0;
+  else if (o->kind == K_RA_D_ALLOCFAIL)
+    {
+      /* undersized before the call (the restored node's recorded size) => NULL with ENOMEM; otherwise no allocation happens */
+      int undersized = nodes[n].dsize_before < (int) OBJSZ;
+      if (undersized)
+        {
+          snprintf (expect, sizeof expect, "(NULL, ENOMEM)");
+          if (!isnull || ec != 3)
+            why = "crypt_ra did not report the failed allocation";
+        }
+      else
+        {
+          const char *want = 0;
+          for (int i = 0; i < nops; i++)
+            if (ops[i].kind == K_RA_D)
+              want = ops[i].solo;
+          snprintf (expect, sizeof expect, "%s", want ? want : "");
+          if (isnull || strcmp (res, expect))
+            why = "result differs from the same call made alone";
+        }
+    }
   else if (isnull != o->solo_null || strcmp (res, o->solo))
     why = "result differs from the same call made alone";
   else if (isnull && ec != o->solo_errclass)
@@ -428,6 +499,7 @@ add_node (uint64_t h, int parent, int op, int depth, const unsigned char *bytes,
   nd->op = (short) op;
   nd->depth = (short) depth;
   nd->err = err;
+  memcpy (&nd->dsize_before, bytes + state_bytes - OBJSZ - 4, 4);
   nd->snaplen = encode_diff (bytes, &nd->snap);
   printf ("H states %016llx\n", (unsigned long long) h);
   size_t m = ((size_t) 1 << HT_BITS) - 1, j = (size_t) h & m;
@@ -514,7 +586,13 @@ main (int argc, char **argv)
   memset (A, 0, OBJSZ);
   memset (B, 0xA5, OBJSZ);
   memset (C, 0, OBJSZ);
-  state_bytes = vh_img_total + 3 * OBJSZ;
+  vh_seam_armed = 1;
+  Dblk = malloc (100);
+  vh_seam_armed = 0;
+  memset (Dblk, 0x6B, 100);
+  Dreal = 100;
+  Dsize = 100;
+  state_bytes = vh_img_total + 3 * OBJSZ + 8 + OBJSZ;
   pristine = malloc (state_bytes);
   scratch = malloc (state_bytes);
   work = malloc (state_bytes);
@@ -611,7 +689,7 @@ main (int argc, char **argv)
         closed = 0;
     }
   /* determinism gate: re-materialise the first states by replaying their histories from the pristine image */
-  int gate = nnodes < 64 ? nnodes : 64;
+  int gate = vh_nviol ? 0 : nnodes < 64 ? nnodes : 64;       /* after a violation (possibly an abandoned call) the gate says nothing */
   for (int n = 1; n < gate; n++)
     {
       int path[16], pl = 0;
